@@ -5,6 +5,7 @@ import Driver.Load
 import Driver.Bind
 import Driver.LexDrv
 import Driver.Lit
+import Driver.CliDrv
 open Lean
 
 partial def loop (h : IO.FS.Stream) (out : IO.FS.Stream) (f : Json → Json) : IO Unit := do
@@ -24,6 +25,7 @@ def generic (g : DrvRun.GOracle) (j : Json) : Json :=
   | "bind" => DrvBind.bind j
   | "lex" => DrvLex.lex j
   | "lit" => DrvLit.lits g j
+  | "cli" => DrvCli.cli j
   | "hist" =>
     -- a history of operations run in one process: every operation is judged on its own against
     -- the (history-free) model
